@@ -2123,10 +2123,19 @@ where
         let mut grid: HashGridIndex<K::Scalar, D, usize> = HashGridIndex::new(grid_cell_size_value);
 
         // Deduplicate first to reduce work for ordering strategies.
+        //
+        // Which representative of a duplicate group survives depends on the order in which the
+        // dedup pass sees the vertices. For the order-normalising strategies feed it the strategy's
+        // own (input-independent) order, so that the result does not depend on how the caller
+        // listed the vertices; `Input` keeps the caller's order by definition.
+        let dedup_input = |vertices: &[Vertex<K::Scalar, U, D>]| match insertion_order {
+            InsertionOrderStrategy::Input => vertices.to_vec(),
+            _ => order_vertices_by_strategy(vertices.to_vec(), insertion_order),
+        };
         let mut owned_vertices: Option<Vec<Vertex<K::Scalar, U, D>>> = match dedup_policy {
             DedupPolicy::Off => None,
             DedupPolicy::Exact => {
-                let vertices = vertices.to_vec();
+                let vertices = dedup_input(vertices);
                 if hash_grid_usable_for_vertices(&grid, &vertices) {
                     Some(dedup_vertices_exact_hash_grid(vertices, &mut grid))
                 } else {
@@ -2135,7 +2144,7 @@ where
             }
             DedupPolicy::Epsilon { .. } => {
                 let epsilon = epsilon.expect("epsilon validated above");
-                let vertices = vertices.to_vec();
+                let vertices = dedup_input(vertices);
                 if hash_grid_usable_for_vertices(&grid, &vertices) {
                     Some(dedup_vertices_epsilon_hash_grid(
                         vertices, epsilon, &mut grid,
